@@ -169,7 +169,8 @@ def compare(q, ref):
     nan_same = bool(torch.equal(torch.isnan(a), torch.isnan(b)))
     diff = (a - b).abs()
     diff = torch.where(torch.isnan(diff), torch.zeros_like(diff), diff)
-    out = {"exact": bool(torch.equal(qd, ref.to(qd.dtype))) if qd.dtype == ref.dtype else bool(torch.equal(a, b)), "maxdiff": float(diff.max()) if diff.numel() else 0.0,
+    am, bm = torch.nan_to_num(a, nan=0.0), torch.nan_to_num(b, nan=0.0)
+    out = {"exact": nan_same and bool(torch.equal(am, bm)), "maxdiff": float(diff.max()) if diff.numel() else 0.0,
            "refmax": float(b.abs().max()) if b.numel() else 0.0, "nan_same": nan_same, "dtype_same": qd.dtype == ref.dtype, "finite": bool(torch.isfinite(a).all()), "ref_finite": bool(torch.isfinite(b).all())}
     # relative: max over elements of |diff| / (|ref| + tiny)
     if diff.numel():
